@@ -32,48 +32,49 @@ type c17Shape struct {
 	Empty bool   // no statement (white space / comments only)
 	Rig   bool   // can be sent through the rig (touches only unsharded tables / no table)
 	Trap  bool   // contains a ';' that is NOT a separator
+	Bad   bool   // a statement of its own that the grammar rejects (only characters the lexer has no rule for): it must reach execution, fail, and stop the rest
 }
 
 var c17Shapes = []c17Shape{
-	{"plain", "select %d", false, true, false},
-	{"sq_semi", "select %d, 'a;b'", false, true, true},
-	{"sq_dblquote", "select %d, 'it'';s'", false, true, true},
-	{"sq_bsquote", "select %d, 'q\\';x'", false, true, true},
-	{"sq_bs_end", "select %d, 'x\\\\'", false, true, false},
-	{"dq_semi", "select %d, \"d;q\"", false, true, true},
-	{"dq_dbl", "select %d, \"d\"\";q\"", false, true, true},
-	{"dq_sq", "select %d, \"a'b;\"", false, true, true},
-	{"sq_dq", "select %d, 'a\"b;'", false, true, true},
-	{"sq_cmt_open", "select %d, '/* ;'", false, true, true},
-	{"sq_dash", "select %d, '-- ;'", false, true, true},
-	{"sq_hash", "select %d, '# ;'", false, true, true},
-	{"bq_semi", "select %d as `c;d`", false, true, true},
-	{"bq_dbl", "select %d as `e``;f`", false, true, true},
-	{"blk_cmt", "select /* c;d */ %d", false, true, true},
-	{"blk_cmt_quote", "select /* it's; */ %d", false, true, true},
-	{"blk_cmt_tight", "select %d/*;*/", false, true, true},
-	{"blk_cmt_dash", "select /* -- ; */ %d", false, true, true},
-	{"blk_cmt_ml", "select /* a\n;\nb */ %d", false, true, true},
-	{"line_dash", "select %d -- x;y\n", false, true, true},
-	{"line_hash", "select %d # x;y\n", false, true, true},
-	{"line_dash_quote", "select %d -- it's;\n", false, true, true},
-	{"lead_cmt", "/* ; */ select %d", false, true, true},
-	{"lead_dash", "-- ;\nselect %d", false, true, true},
-	{"ins_str", "insert into t2 (id, c) values (%d, 'x;y')", false, true, true},
-	{"upd_str", "update t2 set c = 'x;y' where id = %d", false, true, true},
-	{"del_str", "delete from t2 where id = %d and c = \";\"", false, true, true},
-	{"from_t2", "select c from t2 where id = %d and c = 'p;q'", false, true, true},
-	{"set_user", "set @a%d = 'v;w'", false, false, true},
-	{"two_strings", "select %d, ';', ';'", false, true, true},
-	{"adjacent_quotes", "select %d, ''';'''", false, true, true},
+	{"plain", "select %d", false, true, false, false},
+	{"sq_semi", "select %d, 'a;b'", false, true, true, false},
+	{"sq_dblquote", "select %d, 'it'';s'", false, true, true, false},
+	{"sq_bsquote", "select %d, 'q\\';x'", false, true, true, false},
+	{"sq_bs_end", "select %d, 'x\\\\'", false, true, false, false},
+	{"dq_semi", "select %d, \"d;q\"", false, true, true, false},
+	{"dq_dbl", "select %d, \"d\"\";q\"", false, true, true, false},
+	{"dq_sq", "select %d, \"a'b;\"", false, true, true, false},
+	{"sq_dq", "select %d, 'a\"b;'", false, true, true, false},
+	{"sq_cmt_open", "select %d, '/* ;'", false, true, true, false},
+	{"sq_dash", "select %d, '-- ;'", false, true, true, false},
+	{"sq_hash", "select %d, '# ;'", false, true, true, false},
+	{"bq_semi", "select %d as `c;d`", false, true, true, false},
+	{"bq_dbl", "select %d as `e``;f`", false, true, true, false},
+	{"blk_cmt", "select /* c;d */ %d", false, true, true, false},
+	{"blk_cmt_quote", "select /* it's; */ %d", false, true, true, false},
+	{"blk_cmt_tight", "select %d/*;*/", false, true, true, false},
+	{"blk_cmt_dash", "select /* -- ; */ %d", false, true, true, false},
+	{"blk_cmt_ml", "select /* a\n;\nb */ %d", false, true, true, false},
+	{"line_dash", "select %d -- x;y\n", false, true, true, false},
+	{"line_hash", "select %d # x;y\n", false, true, true, false},
+	{"line_dash_quote", "select %d -- it's;\n", false, true, true, false},
+	{"lead_cmt", "/* ; */ select %d", false, true, true, false},
+	{"lead_dash", "-- ;\nselect %d", false, true, true, false},
+	{"ins_str", "insert into t2 (id, c) values (%d, 'x;y')", false, true, true, false},
+	{"upd_str", "update t2 set c = 'x;y' where id = %d", false, true, true, false},
+	{"del_str", "delete from t2 where id = %d and c = \";\"", false, true, true, false},
+	{"from_t2", "select c from t2 where id = %d and c = 'p;q'", false, true, true, false},
+	{"set_user", "set @a%d = 'v;w'", false, false, true, false},
+	{"two_strings", "select %d, ';', ';'", false, true, true, false},
+	{"adjacent_quotes", "select %d, ''';'''", false, true, true, false},
 	// empty pieces
-	{"e_none", "", true, true, false},
-	{"e_space", " ", true, true, false},
-	{"e_nl", "\n\t", true, true, false},
-	{"e_blk", "/* ; */", true, true, true},
-	{"e_dash", "-- ;\n", true, true, true},
-	{"e_hash", "# ;\n", true, true, true},
-	{"e_two", " /* a */ /* b; */ ", true, true, true},
+	{"e_none", "", true, true, false, false},
+	{"e_space", " ", true, true, false, false},
+	{"e_nl", "\n\t", true, true, false, false},
+	{"e_blk", "/* ; */", true, true, true, false},
+	{"e_dash", "-- ;\n", true, true, true, false},
+	{"e_hash", "# ;\n", true, true, true, false},
+	{"e_two", " /* a */ /* b; */ ", true, true, true, false},
 }
 
 // c17BrokenShape is a lexically INVALID tail: a construct opened and never closed, with a ';'
@@ -107,6 +108,62 @@ var c17BrokenIdx = func() map[string]int {
 	return m
 }()
 
+// c17BaseShapes is the number of hand-written shapes above (the exhaustive depth-3
+// enumeration of the thorough tier runs over them; depth 2 runs over all shapes).
+var c17BaseShapes = len(c17Shapes)
+
+// comment bodies that stress the comment scanner: starting/ending with '/' or '*', holding
+// comment openers, quotes and ';'. None contains "*/", starts with '!' or '+'.
+var c17BlockBodies = []struct{ Name, Body string }{
+	{"empty", ""}, {"star", "*"}, {"slash", "/"}, {"slash_txt", "/ not ; a boundary "}, {"starstar", "**"},
+	{"star_sp_slash", " * / ;"}, {"slashslash", "//;"}, {"open_in", " /* ; "}, {"sq", " ' ; "}, {"dq", " \" ; "}, {"bq", " ` ; "},
+	{"semi", ";"}, {"star_semi_star", "*;*"}, {"end_star", " ; *"}, {"end_slash", " ; /"}, {"dash", " -- ; "}, {"hash", " # ; "},
+}
+var c17LineBodies = []struct{ Name, Body string }{
+	{"open", "/* ;"}, {"close", "*/ ;"}, {"slash_open", "/*/ ;"}, {"sq", "' ;"}, {"dq", "\" ;"}, {"bq", "` ;"}, {"dash", "-- ;"}, {"hash", "# ;"},
+}
+
+func init() {
+	for _, b := range c17BlockBodies {
+		cm := "/*" + b.Body + "*/"
+		trap := strings.Contains(b.Body, ";")
+		c17Shapes = append(c17Shapes,
+			c17Shape{"cb_" + b.Name + "_mid", "select " + cm + " %d", false, true, trap, false},
+			c17Shape{"cb_" + b.Name + "_tail", "select %d" + cm, false, true, trap, false},
+			c17Shape{"cb_" + b.Name + "_lead", cm + "select %d", false, true, trap, false})
+	}
+	for _, b := range c17LineBodies {
+		c17Shapes = append(c17Shapes,
+			c17Shape{"cl_" + b.Name + "_dash", "select %d -- " + b.Body + "\n", false, true, true, false},
+			c17Shape{"cl_" + b.Name + "_hash", "select %d #" + b.Body + "\n", false, true, true, false})
+	}
+	// statements the grammar rejects: only characters the lexer has no rule for (+ blanks, comments)
+	for _, x := range []struct{ Name, Text string }{
+		{"x_rbracket", "]"}, {"x_lbracket", "["}, {"x_ctl", "\x01"}, {"x_two", "] ["}, {"x_ctl_blank", "\x01 \x02"},
+		{"x_cmt_after", "] /* c */"}, {"x_cmt_before", "/* ; */ ]"}, {"x_line_after", "] -- ;\n"},
+	} {
+		c17Shapes = append(c17Shapes, c17Shape{x.Name, x.Text, false, true, strings.Contains(x.Text, ";"), true})
+	}
+	for _, b := range c17BlockBodies {
+		c17Shapes = append(c17Shapes, c17Shape{"ce_" + b.Name, "/*" + b.Body + "*/", true, true, strings.Contains(b.Body, ";"), false})
+	}
+	for _, b := range c17LineBodies {
+		c17Shapes = append(c17Shapes,
+			c17Shape{"cle_" + b.Name + "_dash", "-- " + b.Body + "\n", true, true, true, false},
+			c17Shape{"cle_" + b.Name + "_hash", "#" + b.Body + "\n", true, true, true, false})
+	}
+	for i, sh := range c17Shapes {
+		c17ShapeIdx[sh.Name] = i
+		if sh.Empty {
+			c17EmptyIdx = append(c17EmptyIdx, i)
+		} else {
+			c17StmtIdx = append(c17StmtIdx, i)
+		}
+	}
+}
+
+var c17EmptyIdx, c17StmtIdx []int
+
 var c17ShapeIdx = func() map[string]int {
 	m := map[string]int{}
 	for i, s := range c17Shapes {
@@ -136,6 +193,7 @@ type c17Case struct {
 type c17Built struct {
 	Text  string
 	Stmts []string // expected non-empty statements
+	Bad   []bool   // Bad[i]: statement i is rejected by the grammar (must fail when executed)
 	Start []int    // offset of statement i in Text
 	End   []int
 	Traps int
@@ -165,6 +223,7 @@ func (c c17Case) build() c17Built {
 		if !sh.Empty {
 			b.Start = append(b.Start, sb.Len())
 			b.Stmts = append(b.Stmts, txt)
+			b.Bad = append(b.Bad, sh.Bad)
 			b.End = append(b.End, sb.Len()+len(txt))
 		}
 		sb.WriteString(txt)
@@ -203,6 +262,15 @@ func (c c17Case) sig(clause string) string {
 		trail = ""
 	}
 	return fmt.Sprintf("C17/%s/shapes=%s/lead=%q/trail=%q/sepb=%q/sepa=%q/%s", clause, c.key(), c.Lead, trail, strings.Join(c.SepB, "|"), strings.Join(c.SepA, "|"), f)
+}
+
+func (b c17Built) badAt() int {
+	for i, x := range b.Bad {
+		if x {
+			return i
+		}
+	}
+	return -1
 }
 
 // c17CheckSplit returns "" or the failed clause + description.
@@ -370,9 +438,19 @@ func (g *c17Rig) run(c c17Case, b c17Built) (string, string, rwObs, string) {
 		cl, what := g.checkBroken(b, rs, obs, reply)
 		return cl, what, obs, reply
 	}
+	// execution stops at the first statement the grammar rejects (it fails inside the proxy,
+	// no backend exec) or at the scripted backend failure, whichever comes first
 	want := len(b.Stmts)
+	errAt := -1
+	if ba := b.badAt(); ba >= 0 {
+		want, errAt = ba, ba
+	}
 	if c.FaultAt > 0 && c.FaultAt <= want {
-		want = c.FaultAt
+		want, errAt = c.FaultAt, c.FaultAt-1
+	}
+	wantReplies := len(b.Stmts)
+	if errAt >= 0 {
+		wantReplies = errAt + 1
 	}
 	desc := func(what string) string {
 		return fmt.Sprintf("%s: text %q constructed statements %q fault_at=%d; backend saw %q; replies: %s", what, b.Text, b.Stmts, c.FaultAt, c17ExecSQL(obs), reply)
@@ -391,11 +469,11 @@ func (g *c17Rig) run(c c17Case, b c17Built) (string, string, rwObs, string) {
 	if len(b.Stmts) == 0 {
 		return "", "", obs, reply
 	}
-	if len(rs) != want {
-		return "rig-reply-count", desc(fmt.Sprintf("%d replies, expected %d", len(rs), want)), obs, reply
+	if len(rs) != wantReplies {
+		return "rig-reply-count", desc(fmt.Sprintf("%d replies, expected %d", len(rs), wantReplies)), obs, reply
 	}
 	for i, x := range rs {
-		failing := c.FaultAt > 0 && i == c.FaultAt-1
+		failing := i == errAt
 		if failing != (x.Err != nil) {
 			return "rig-reply-kind", desc(fmt.Sprintf("reply %d error=%v, expected error=%v", i, x.Err != nil, failing)), obs, reply
 		}
@@ -419,6 +497,13 @@ func (g *c17Rig) checkBroken(b c17Built, rs []*mycli.Reply, obs rwObs, reply str
 		return "rig-broken-executed", desc("a packet whose last statement holds an unterminated comment was not refused as a whole")
 	}
 	n := len(b.Stmts)
+	if ba := b.badAt(); ba >= 0 {
+		// a statement the grammar rejects sits before the broken tail: execution stops there
+		if len(obs.Execs) != ba {
+			return "rig-broken-exec-count", desc(fmt.Sprintf("backend executed %d statements, expected the %d valid ones before the rejected piece", len(obs.Execs), ba))
+		}
+		n = ba
+	}
 	if len(obs.Execs) != n && len(obs.Execs) != n+1 {
 		return "rig-broken-exec-count", desc(fmt.Sprintf("backend executed %d statements, expected %d valid ones (+ at most the whole broken tail)", len(obs.Execs), n))
 	}
@@ -428,6 +513,9 @@ func (g *c17Rig) checkBroken(b c17Built, rs []*mycli.Reply, obs rwObs, reply str
 				return "rig-broken-exec-text", desc(fmt.Sprintf("backend exec %d is not constructed statement %d", i, i))
 			}
 		}
+	}
+	if len(obs.Execs) == n+1 && b.badAt() >= 0 {
+		return "rig-broken-exec-count", desc("a statement ran after the piece the grammar rejects")
 	}
 	if len(obs.Execs) == n+1 {
 		o := strings.TrimSpace(obs.Execs[n].SQL)
@@ -560,9 +648,9 @@ func c17Random(rnd *kit.Rand, maxPieces int, rigOnly bool) c17Case {
 		for {
 			var sh c17Shape
 			if rnd.Chance(1, 4) {
-				sh = c17Shapes[c17ShapeIdx["e_none"]+rnd.Intn(len(c17Shapes)-c17ShapeIdx["e_none"])]
+				sh = c17Shapes[c17EmptyIdx[rnd.Intn(len(c17EmptyIdx))]]
 			} else {
-				sh = c17Shapes[rnd.Intn(c17ShapeIdx["e_none"])]
+				sh = c17Shapes[c17StmtIdx[rnd.Intn(len(c17StmtIdx))]]
 			}
 			if rigOnly && !sh.Rig {
 				continue
@@ -684,6 +772,17 @@ func TestVerif_C17(t *testing.T) {
 	if kit.Tier() == "thorough" {
 		// every sequence of <= 3 pieces x lead x trail with plain separators
 		nsh := len(c17Shapes)
+		allBase := func(prefix []string, i int) bool {
+			if i >= c17BaseShapes {
+				return false
+			}
+			for _, p := range prefix {
+				if c17ShapeIdx[p] >= c17BaseShapes {
+					return false
+				}
+			}
+			return true
+		}
 		var rec3 func(prefix []string, depth int)
 		cnt := 0
 		rec3 = func(prefix []string, depth int) {
@@ -704,6 +803,9 @@ func TestVerif_C17(t *testing.T) {
 				return
 			}
 			for i := 0; i < nsh; i++ {
+				if depth == 2 && !allBase(prefix, i) {
+					continue // depth 3 only over the hand-written base shapes
+				}
 				rec3(append(prefix, c17Shapes[i].Name), depth+1)
 			}
 		}
@@ -831,7 +933,10 @@ func TestVerif_C17(t *testing.T) {
 			rec.Inconclusive(what)
 			return
 		}
-		if len(obs.Execs) >= 2 || (c.FaultAt > 0 && len(b.Stmts) >= 2) {
+		if b.badAt() >= 0 {
+			rec.Count("rig.rejected_piece", 1)
+		}
+		if len(obs.Execs) >= 2 || ((c.FaultAt > 0 || b.badAt() >= 0) && len(b.Stmts) >= 2) {
 			nontrivRig++
 			rec.Nontrivial("rig:" + c.key() + fmt.Sprintf("@%d", c.FaultAt))
 		}
